@@ -45,6 +45,8 @@ type half struct {
 	deadline time.Time
 	dlTimer  *time.Timer
 
+	wdeadline time.Time // write deadline of the writer of this direction (sticky, like a net.Conn's)
+
 	gate func(b []byte) // called (outside the lock) before a write is appended; may block
 	werr error          // when set, every Write of this direction fails with it (reads are unaffected)
 }
@@ -311,6 +313,11 @@ func (c *Conn) Write(p []byte) (int, error) {
 	if h.werr != nil {
 		return 0, h.werr
 	}
+	if !h.wdeadline.IsZero() && !time.Now().Before(h.wdeadline) {
+		// like a net.Conn: once the write deadline has passed every write fails until it is
+		// moved or cleared
+		return 0, ErrDeadline
+	}
 	if h.rclosed {
 		return 0, errors.New("memconn: write: broken pipe")
 	}
@@ -352,6 +359,7 @@ func (c *Conn) RemoteAddr() net.Addr { return c.remote }
 // SetDeadline implements net.Conn.
 func (c *Conn) SetDeadline(t time.Time) error {
 	c.SetReadDeadline(t)
+	c.SetWriteDeadline(t)
 	return nil
 }
 
@@ -380,8 +388,14 @@ func (c *Conn) SetReadDeadline(t time.Time) error {
 	return nil
 }
 
-// SetWriteDeadline implements net.Conn (writes never block).
-func (c *Conn) SetWriteDeadline(t time.Time) error { return nil }
+// SetWriteDeadline implements net.Conn. Writes never block here, but the deadline is kept
+// and enforced the way a net.Conn does: it is sticky, and a write after it fails.
+func (c *Conn) SetWriteDeadline(t time.Time) error {
+	c.w.mu.Lock()
+	c.w.wdeadline = t
+	c.w.mu.Unlock()
+	return nil
+}
 
 // Feed appends raw bytes to the stream read by this endpoint's peer, i.e. it
 // is a Write that bypasses gate and capture. Used by byte-level raw peers.
